@@ -96,6 +96,11 @@ struct pump
         std::lock_guard<std::mutex> lk(m);
         return posted;
     }
+    unsigned long shell_calls_now()
+    {
+        std::lock_guard<std::mutex> lk(m);
+        return shell_calls;
+    }
     bool wait_posted(unsigned long n, int ms)
     {
         std::unique_lock<std::mutex> lk(m);
